@@ -23,6 +23,7 @@ import Holpy.C15.Proofs.Tseitin
 import Holpy.C15.Proofs.TseitinRewrite
 import Holpy.C15.Proofs.TseitinMain
 import Holpy.C15.Proofs.TseitinSequent
+import Holpy.C15.Proofs.TseitinInst
 /-! C15 helper lemmas; the parts live in `Holpy/C15/Proofs/*.lean`:
 `Basic` (membership in `dedup`/`resolution` results), `Trace` (the trace checker is sound),
 `Trail` (invariant of `assigns`, `unit_propagate`), `Analyze` (`analyze_conflict`), `NoCrash` (its assertion and `backtrack`'s indexing never fail),
